@@ -13,7 +13,7 @@ from ..world import World, install_seams, remove_seams, to_pyvalue
 from ..rng import digest
 
 PROP = "C20"
-RUNS = {"quick": 60000, "thorough": 5000000}
+RUNS = {"quick": 60000, "thorough": 2500000}
 WALL = {"quick": 280, "thorough": 3500}
 RULE = ("one run = one line (connected or stand-alone, vlevel 0-3) with 1-6 tag writes from a boundary-"
         "biased value pool interleaved with other edits, then checkpoint + restart + read; distinct = "
